@@ -8,20 +8,20 @@ import (
 	"os"
 	"sort"
 
-	"verif/harness/drivers"
+	"verif/harness/reg"
 )
 
 func main() {
 	if len(os.Args) < 2 {
 		names := []string{}
-		for n := range drivers.Registry {
+		for n := range reg.Registry {
 			names = append(names, n)
 		}
 		sort.Strings(names)
 		fmt.Fprintln(os.Stderr, "usage: drv <driver> [flags]; drivers:", names)
 		os.Exit(2)
 	}
-	d, ok := drivers.Registry[os.Args[1]]
+	d, ok := reg.Registry[os.Args[1]]
 	if !ok {
 		fmt.Fprintln(os.Stderr, "unknown driver", os.Args[1])
 		os.Exit(2)
